@@ -550,6 +550,7 @@ def gen_specs(r, thorough):
     docs/*.rst (see the generators' docstrings)."""
     from tools.gen import libgen, hdrgen, pygen, luagen
     specs = []
+    gen_specs.skipped = []
     n = 60 if thorough else 12
     for i in range(n):
         lang = ["c", "c++"][i % 2]
@@ -565,13 +566,25 @@ def gen_specs(r, thorough):
                           language=None, incdirs=[], header=hdrgen.header(lib), gen=True))
     npy = 16 if thorough else 4
     for i in range(npy):
-        lib = [pygen.random_cxx, pygen.random_c][i % 2](r, "pylib")
+        try:
+            # tools/gen/pygen.py and luagen.py belong to C03 / C18 and keep growing: an API change there must not turn this
+            # check into a machinery error
+            lib = [pygen.random_cxx, pygen.random_c][i % 2](r, "pylib")
+            lib.yaml(), lib.header(), lib.header_name()
+        except Exception as e:
+            gen_specs.skipped.append("pygen: %s: %s" % (type(e).__name__, e))
+            continue
         vn, vopts = GEN_VARIANTS[(i * 3) % len(GEN_VARIANTS)] if i else ("base", [])
         specs.append(dict(tag="pygen%d+%s" % (i, vn), config="pygen", yaml_text=lib.yaml(), yaml_name="pylib.yaml", options=list(vopts),
                           language=None, incdirs=[], header=(lib.header_name(), lib.header()), gen=True))
     nlua = 12 if thorough else 3
     for i in range(nlua):
-        lib = luagen.gen_lualib(r, "lualib") if i else luagen.fixed_lualib("lualib")
+        try:
+            lib = luagen.gen_lualib(r, "lualib") if i else luagen.fixed_lualib("lualib")
+            lib.yaml(), lib.header()
+        except Exception as e:
+            gen_specs.skipped.append("luagen: %s: %s" % (type(e).__name__, e))
+            continue
         vn, vopts = GEN_VARIANTS[(i * 5) % len(GEN_VARIANTS)] if i else ("base", [])
         specs.append(dict(tag="luagen%d+%s" % (i, vn), config="luagen", yaml_text=lib.yaml(), yaml_name="lualib.yaml", options=list(vopts),
                           language=None, incdirs=[], header=("lualib.hpp", lib.header()), gen=True))
@@ -738,7 +751,7 @@ def compile_oracle(ctx, r, thorough):
         "files_by_tool_status": {"%s/%s" % k: v for k, v in sorted(stats.items())},
         "skipped": skipped, "excluded_by_rule": dict(list(excl.items())[:40]), "excluded_count": len(excl),
         "duplicate_include_lines_seen": ndup[:10], "rejected_with_diagnostic": rejected,
-        "options_x_features_matrix": matrix, "baseline_entries": len(baseline),
+        "options_x_features_matrix": matrix, "generator_skips": getattr(gen_specs, "skipped", []), "baseline_entries": len(baseline),
     })
     ctx.sample({"compile": {"configurations": len(specs), "ok_files": sum(v for k, v in stats.items() if k[1] == "ok")}})
 
